@@ -185,7 +185,7 @@ for sh, T in (("u8", "u8"), ("id", "Key")):
     for i, op in enumerate(("insert", "replace", "extend", "extend_ref")):
         if op == "extend_ref" and sh == "id":
             pass
-        add("c03_full_set_%s_%s" % (op, sh), "c03::h_full_set::<%s, {N}>(%d)" % (T, i), ["C03"], N_(0, 2), T3, profile="both",
+        add("c03_full_set_%s_%s" % (op, sh), "c03::h_full_set::<%s, {N}>(%d)" % (T, i), ["C03"] + (["C16"] if op.startswith("extend") else ["C07"]), N_(0, 2), T3, profile="both",
             expect=PANIC(*FULL_PANIC), fn="Set::%s on a full set (must panic)" % op, shape="S_" + sh)
 add("c03_full_from_iter", "c03::h_full_from_iter::<{N}, {L}>()", ["C03", "C16"], [{"N": 0, "L": 1}, {"N": 1, "L": 2}, {"N": 2, "L": 3}], [{"N": 0, "L": 1}, {"N": 1, "L": 2}, {"N": 2, "L": 3}, {"N": 3, "L": 4}],
     unwind="L+2", profile="both", expect=PANIC(*FULL_PANIC), fn="FromIterator::from_iter for Map with more distinct keys than N (must panic)", shape="S_u8")
@@ -348,6 +348,7 @@ add("c19_display_map", "c19::h_display_map::<{N}>({A})", ["C19", "C06"], NL(2, (
 add("c19_display_set", "c19::h_display_set::<{N}>({A})", ["C19", "C06"], NL(2, (0, 1, 2)) + NL(3, (3,)) + NL(5, (5,)), NL(3, (0, 1, 2, 3)) + NL(4, (4,)) + NL(5, (5,)) + NL(6, (6,)), unwind="max(N,4)+14", fn="Display for Set", shape="S_fmt", timeout="30m")
 add("c19_debug_map", "c19::h_debug_map::<{N}>(false, {A})", ["C19", "C06"], NL(2, (0, 1, 2)), NL(3, (0, 1, 2, 3)), unwind="max(N,6)+2", fn="Debug for Map ({:?})", shape="S_fmt", timeout="30m")
 add("c19_debug_map_alt", "c19::h_debug_map::<{N}>(true, {A})", ["C19"], NL(1, (0,)), NL(1, (0, 1)), unwind="max(N,6)+2", fn="Debug for Map ({:#?})", shape="S_fmt", timeout="30m")
+add("c19_debug_params", "c19::h_debug_params::<{N}>({A})", ["C19"], NL(1, (1,)), NL(2, (2,)), unwind="max(N,6)+2", fn="Debug for Map / Set with formatting parameters ({:.1?})", shape="S_fmt", timeout="30m")
 add("c19_debug_set", "c19::h_debug_set::<{N}>(false, {A})", ["C19", "C06"], NL(2, (0, 1, 2)), NL(3, (0, 1, 2, 3)), unwind="max(N,6)+2", fn="Debug for Set ({:?})", shape="S_fmt", timeout="30m")
 add("c19_debug_set_alt", "c19::h_debug_set::<{N}>(true, {A})", ["C19"], NL(1, (0,)), NL(1, (0, 1)), unwind="max(N,6)+2", fn="Debug for Set ({:#?})", shape="S_fmt", timeout="30m")
 for i, nm in enumerate(("Iter", "IterMut", "Keys", "Values", "ValuesMut", "IntoIter", "IntoKeys", "IntoValues", "Drain")):
